@@ -273,11 +273,29 @@ fn produces_diagram(q: &Q) -> bool {
 
 fn fresh_answer<'a, T: IteTable<'a, BddPtr<'a>> + Default>(b: &'a RobddBuilder<'a, T>, case: &Case, q: &Q, prior: &[Q]) -> Ans {
     let (mut pool, n) = build(b, case);
-    for pq in prior.iter().filter(|x| produces_diagram(x)) {
-        let mut extra = Vec::new();
-        let _ = answer(b, &pool, n, pq, &mut extra);
-        for r in extra {
-            pool.push((r, bdd_tt(r)));
+    let base_len = pool.len();
+    // the fresh copy holds exactly what the query needs: of the earlier diagram-producing queries only those in
+    // the dependency cone of the queried diagram are replayed (each pushes one diagram); the others leave a
+    // placeholder so that pool positions line up. Residue that an earlier smooth / condition / exists on ANOTHER
+    // diagram left in the long-lived builder is thus absent here.
+    let producers: Vec<&Q> = prior.iter().filter(|x| produces_diagram(x)).collect();
+    let mut cone: BTreeSet<usize> = BTreeSet::new();
+    let mut t = pick(q.target().unwrap(), base_len + producers.len());
+    while t >= base_len {
+        let k = t - base_len;
+        cone.insert(k);
+        t = pick(producers[k].target().unwrap(), base_len + k);
+    }
+    for (k, pq) in producers.iter().enumerate() {
+        if cone.contains(&k) {
+            let mut extra = Vec::new();
+            let _ = answer(b, &pool, n, pq, &mut extra);
+            debug_assert_eq!(extra.len(), 1);
+            for r in extra {
+                pool.push((r, bdd_tt(r)));
+            }
+        } else {
+            pool.push((BddPtr::PtrTrue, Tt::TRUE));
         }
     }
     let mut extra = Vec::new();
@@ -394,7 +412,7 @@ fn queries_strategy() -> impl Strategy<Value = Vec<Q>> {
 impl SubCheckT for BddQueries {
     type Case = Case;
     const NAME: &'static str = "bdd_queries";
-    const RULE: &'static str = "a pool of BDDs sharing nodes built by a <=25-op history in one builder (random order, either cache), then a history of <=26 queries on random pool entries: unsmoothed_wmc in real / two finite fields / expected utility / complex / polynomial / Boolean, evaluate, count_nodes, fold-based semantic_hash for two primes, marginal_map, meu, bb over reals and expected utility, smooth (plus a count on its result), condition, condition_model, exists; each answer must equal the answer to the same single query on a freshly built copy in a brand-new builder, and after every call every node reachable from the pool and from the result must report is_scratch_cleared(). Non-trivial: >=2 result types, the pool shares an internal node, and an earlier query is repeated";
+    const RULE: &'static str = "a pool of BDDs sharing nodes built by a <=25-op history in one builder (random order, either cache), then a history of <=26 queries on random pool entries: unsmoothed_wmc in real / two finite fields / expected utility / complex / polynomial / Boolean, evaluate, count_nodes, fold-based semantic_hash for two primes, marginal_map, meu, bb over reals and expected utility, smooth (plus a count on its result), condition, condition_model, exists; each answer must equal the answer to the same single query on a freshly built copy in a brand-new builder (which replays, of the earlier smooth / condition / exists queries, only those that built the queried diagram), and after every call every node reachable from the pool and from the result must report is_scratch_cleared(). Non-trivial: >=2 result types, the pool shares an internal node, and an earlier query is repeated";
     fn cases(tier: Tier) -> u32 {
         tier.pick(1500, 50_000)
     }
@@ -610,14 +628,80 @@ fn absorb<'a>(w: &mut World<'a>, es: Vec<SddPtr<'a>>, ed: Vec<BddPtr<'a>>) {
     }
 }
 
+impl SQ {
+    /// (index into the SDD pool, index into the list of top-down diagrams) this query reads
+    fn targets(&self) -> (Option<u16>, Option<u16>) {
+        match self {
+            SQ::WmcReal(i, _) | SQ::WmcFf64(i, _) | SQ::WmcEu(i, _) | SQ::WmcFf32(i, _) | SQ::WmcComplex(i, _) | SQ::WmcPoly(i, _) | SQ::WmcBool(i, _) => (Some(*i), None),
+            SQ::CountNodes(i) | SQ::SemHash64(i) | SQ::Evaluate(i, _) | SQ::Condition(i, _, _) | SQ::Exists(i, _) => (Some(*i), None),
+            SQ::DWmcReal(k, _) | SQ::DWmcEu(k, _) | SQ::DCountNodes(k) | SQ::DSemHash64(k) | SQ::DEvaluate(k, _) => (None, Some(*k)),
+            SQ::DMarginalMap(k, _, _) | SQ::DMeu(k, _, _) | SQ::DBbReal(k, _, _) | SQ::DCondition(k, _, _) => (None, Some(*k)),
+        }
+    }
+}
+
 fn fresh_sdd_answer(case: &SddCase, dn: usize, q: &SQ, prior: &[SQ]) -> Ans {
     let (sb2, db2, xb2) = mk_builders(&case.vt, dn);
     let mut w2 = build_world(&sb2, &db2, &xb2, case, dn);
-    // diagram-producing queries are builder operations: replay them so that the pools line up
-    for pq in prior.iter().filter(|x| sq_produces_diagram(x)) {
-        let (mut es, mut ed) = (Vec::new(), Vec::new());
-        let _ = sdd_answer(&w2, pq, &mut es, &mut ed);
-        absorb(&mut w2, es, ed);
+    let (base_s, base_d) = (w2.pool.len(), w2.ds.len());
+    // which earlier query produced which pool entry (a DCondition on a diagram of the semantic store, or with no
+    // variable at all, produces nothing): simulate the bookkeeping without running anything
+    let producers: Vec<&SQ> = prior.iter().filter(|x| sq_produces_diagram(x)).collect();
+    let mut made_s: Vec<usize> = Vec::new(); // producer index of SDD pool entry base_s + j
+    let mut made_d: Vec<usize> = Vec::new(); // producer index of top-down entry base_d + j
+    let mut std_owned: Vec<bool> = w2.ds.iter().map(|x| x.1).collect();
+    for (k, pq) in producers.iter().enumerate() {
+        match pq {
+            SQ::Condition(..) | SQ::Exists(..) => made_s.push(k),
+            SQ::DCondition(t, _, _) => {
+                if dn > 0 && std_owned[pick(*t, std_owned.len())] {
+                    made_d.push(k);
+                    std_owned.push(true);
+                }
+            }
+            _ => {}
+        }
+    }
+    // dependency cone of the queried entry; pool lengths at the time of producer k
+    let len_s_at = |k: usize| base_s + made_s.iter().filter(|p| **p < k).count();
+    let len_d_at = |k: usize| base_d + made_d.iter().filter(|p| **p < k).count();
+    let mut cone: BTreeSet<usize> = BTreeSet::new();
+    let mut work: Vec<(bool, usize)> = Vec::new(); // (is top-down, absolute index)
+    match q.targets() {
+        (Some(i), _) => work.push((false, pick(i, base_s + made_s.len()))),
+        (_, Some(k)) => work.push((true, pick(k, base_d + made_d.len()))),
+        _ => {}
+    }
+    while let Some((is_d, idx)) = work.pop() {
+        let prod = if is_d {
+            if idx < base_d {
+                continue;
+            }
+            made_d[idx - base_d]
+        } else {
+            if idx < base_s {
+                continue;
+            }
+            made_s[idx - base_s]
+        };
+        if cone.insert(prod) {
+            match producers[prod].targets() {
+                (Some(i), _) => work.push((false, pick(i, len_s_at(prod)))),
+                (_, Some(k)) => work.push((true, pick(k, len_d_at(prod)))),
+                _ => {}
+            }
+        }
+    }
+    for (k, pq) in producers.iter().enumerate() {
+        if cone.contains(&k) {
+            let (mut es, mut ed) = (Vec::new(), Vec::new());
+            let _ = sdd_answer(&w2, pq, &mut es, &mut ed);
+            absorb(&mut w2, es, ed);
+        } else if made_s.contains(&k) {
+            w2.pool.push((SddPtr::PtrTrue, Tt::TRUE));
+        } else if made_d.contains(&k) {
+            w2.ds.push((BddPtr::PtrTrue, true));
+        }
     }
     sdd_answer(&w2, q, &mut Vec::new(), &mut Vec::new())
 }
